@@ -20,6 +20,26 @@ pub use crate::buffer::{
 pub use crate::socket::{Socket, TcpSocket, UdpSocket};
 pub use crate::utils::{error_by_expected_size, retry_on_timeout, u8_lower_upper};
 
+/// Thin public wrappers around crate-private codecs (the harness crate lives
+/// outside this crate).
+pub mod unit {
+    use super::Buffer;
+    use crate::GDResult;
+    use byteorder::ByteOrder;
+
+    pub fn mc_get_varint<B: ByteOrder>(buffer: &mut Buffer<B>) -> GDResult<i32> {
+        crate::games::minecraft::get_varint(buffer)
+    }
+
+    pub fn mc_as_varint(value: i32) -> Vec<u8> { crate::games::minecraft::as_varint(value) }
+
+    pub fn mc_get_string<B: ByteOrder>(buffer: &mut Buffer<B>) -> GDResult<String> {
+        crate::games::minecraft::get_string(buffer)
+    }
+
+    pub fn mc_as_string(value: &str) -> GDResult<Vec<u8>> { crate::games::minecraft::as_string(value) }
+}
+
 /// Model of the diagnostic payload of `GDError`: carries nothing, drops
 /// nothing. The error *kind* is untouched.
 #[derive(Debug)]
